@@ -8,6 +8,10 @@
  3. REPLAY  each history is executed on the real shelve backend (harness/store_h.py): real dbm files, real
             Interface._update/_load over the in-memory client <-> comms.Worker bridge, real remove / reset /
             trace / next / add / update, close + reopen; closing sweep reads every stored identity back
+            the environment of a history (driver's choice, logged): pre-registered names giving ids 1 / 10..,
+            run ids crossing digit boundaries or starting at 0, large values (70 KiB common prefix); after every
+            load the harness edits the loaded object in place; trace is one call naming the algorithm under
+            several tasks; db.tools.worm requests (run id 0 included) are operations of the model
  4. TRACE   TLC rebuilds the real state from the logged deltas and evaluates every clause on every line
             (spec/Store_Trace.tla); Python only counts and reports
 
@@ -22,6 +26,8 @@ import random
 
 from vlib import core, tlc
 
+# two tasks owning the same algorithm name (one trace call naming both; worm requests that give the task)
+TWO = dict(Targets=['T'], Tasks=['k', 'k2'], AlgNames=['A'], SvNames=['s'], ValNames=['v'], Runs=[1, 2], Contents=[1], Masks=[['run', 'task']])
 TINY = dict(Targets=['T'], Tasks=['k'], AlgNames=['A', 'A2'], SvNames=['s'], ValNames=['v'], Runs=[1, 2], Contents=[1, 2])
 SMALL = dict(Targets=['T', 'T2'], Tasks=['k'], AlgNames=['A', 'A2', 'AB'], SvNames=['s'], ValNames=['v'], Runs=[1, 2], Contents=[1, 2])
 FULL = dict(Targets=['T', 'T2'], Tasks=['k', 'k2'], AlgNames=['A', 'A2', 'AB'], SvNames=['s'], ValNames=['v'], Runs=[1, 2, 3], Contents=[1, 2, 3])
@@ -31,18 +37,22 @@ WIDE = dict(Targets=['T', 'T2'], Tasks=['k', 'k2'], AlgNames=['A', 'A2', 'AB'], 
 
 MC_PROPS = {
     'C06': dict(invariants=['TypeOK'], properties=['C06_LoadOK']),
-    'C08': dict(invariants=['TypeOK', 'C08_Bijective', 'C08_Resolves'], properties=['C08_Survives', 'C08_NextRun', 'C08_ExactRemove', 'C08_ExactReset', 'C08_ExactTrace']),
+    'C08': dict(invariants=['TypeOK', 'C08_Bijective', 'C08_Resolves'], properties=['C08_Survives', 'C08_NextRun', 'C08_ExactRemove', 'C08_ExactReset', 'C08_ExactTrace', 'C08_ExactWorm']),
 }
 # which kinds of cases must have occurred for the run not to be vacuous
 NEEDED = {
     'C06': ['Update', 'Bump', 'Load-exact-run', 'Load-absent-run', 'Load-future-run', 'Load-other-version-only', 'Load-other-target-only', 'Load-nothing', 'Remove-hit', 'Reopen-some'],
-    'C08': ['Reset-with-id-prefix-neighbour', 'Next-across-digit-boundary', 'Update', 'Register', 'AddTarget', 'Remove-hit', 'Remove-miss', 'Remove-with-prefix-sibling', 'Reset-hit', 'Reset-prefix-sibling-only', 'Reset-other-algorithm-only', 'Trace-some', 'Trace-with-prefix-sibling', 'Next-some', 'Next-empty', 'Reopen-some'],
+    'C08': ['Worm-hit', 'Worm-run-0-beside-other-runs', 'Trace-same-name-under-two-tasks', 'Reset-with-id-prefix-neighbour', 'Next-across-digit-boundary', 'Update', 'Register', 'AddTarget', 'Remove-hit', 'Remove-miss', 'Remove-with-prefix-sibling', 'Reset-hit', 'Reset-prefix-sibling-only', 'Reset-other-algorithm-only', 'Trace-some', 'Trace-with-prefix-sibling', 'Next-some', 'Next-empty', 'Reopen-some'],
 }
 MCW = min(core.NPROC, 8)
 
 
+MASKS = [['run', 'task'], ['run', 'a'], ['a']]  # what a worm request gives (the rest is left open)
+
+
 def consts(alpha, maxops, pinned=False, canon=False, metric='<- Metric1'):
     return {
+        'WormMasks': '{' + ', '.join(tlc.tla_set(m) for m in alpha.get('Masks', MASKS)) + '}',
         'Targets': tlc.tla_set(alpha['Targets']),
         'Tasks': tlc.tla_set(alpha['Tasks']),
         'AlgNames': tlc.tla_set(alpha['AlgNames']),
@@ -59,6 +69,7 @@ def consts(alpha, maxops, pinned=False, canon=False, metric='<- Metric1'):
 
 
 TRACE_CONSTS = {
+    'WormMasks': '{}',
     'Targets': '{}',
     'Tasks': '{}',
     'AlgNames': '{}',
@@ -73,7 +84,7 @@ TRACE_CONSTS = {
     'Pinned': 'FALSE',
 }
 
-FIELDS = ('ev', 'tgt', 'task', 'a', 's', 'v', 'run', 'c', 'lvl', 'to')
+FIELDS = ('ev', 'tgt', 'task', 'tks', 'a', 's', 'v', 'run', 'c', 'lvl', 'to')
 
 
 def parse_scheds(res, maximal_only=False):
@@ -119,11 +130,12 @@ def sim_schedules(chk, name, alpha, chains, depth, seed, workers=4, timeout=1800
     return out
 
 
-RUNMAPS = [{1: 9, 2: 10, 3: 11}, {1: 8, 2: 9, 3: 10}, {1: 1, 2: 10, 3: 11}, {1: 99, 2: 100, 3: 101}, {1: 1, 2: 2, 3: 3}]
+RUNMAPS = [{1: 9, 2: 10, 3: 11}, {1: 8, 2: 9, 3: 10}, {1: 1, 2: 10, 3: 11}, {1: 99, 2: 100, 3: 101}, {1: 1, 2: 2, 3: 3}, {1: 0, 2: 1, 3: 2}]
+ZEROMAPS = [{1: 0, 2: 1, 3: 2}, {1: 0, 2: 9, 3: 10}]  # run id 0 is where regression results are stored
 FILLERS = 10
 
 
-def environment(n, h, alpha):
+def _environment(n, h, alpha):
     '''the database the history starts on (logged in the trace header; nothing here is judged):
     every fourth history starts on an empty database with the model's own run ids; the others on a database
     where ten filler targets / tasks / algorithms (each with a state vector and a value) and the model's own
@@ -150,9 +162,15 @@ def environment(n, h, alpha):
     algs = first(alpha['AlgNames'], last['a'] if last else '')
     svs = first(alpha['SvNames'], last['s'] if last else '')
     vals = first(alpha['ValNames'], last['v'] if last else '')
+    # versions the history never declares are not registered beforehand: trace reports on the newest REGISTERED
+    # version of an algorithm, and a version without data would make it report nothing at all
+    if any(e['ev'] == 'Bump' and e['lvl'] == 'alg' for e in h):
+        vers = (10000, 20000) if rot % 2 == 0 else (20000, 10000)
+    else:
+        vers = (10000,)
     model = [
         {'task': tk, 'a': a, 'av': av, 's': svs[0], 'sv': 10000, 'v': vals[0], 'vv': 10000}
-        for av in ((10000, 20000) if rot % 2 == 0 else (20000, 10000))
+        for av in vers
         for tk in tasks
         for a in algs
     ]
@@ -166,6 +184,16 @@ def environment(n, h, alpha):
     }
 
 
+def environment(n, h, alpha):
+    env = _environment(n, h, alpha)
+    # every fifth history stores large values (70 KiB of common bytes in front of the content)
+    env['big'] = n % 5 == 0
+    # a history with a worm request for the model's lowest run is played with that run as run id 0
+    if any(e['ev'] == 'Worm' and e['run'] == min(alpha['Runs']) for e in h) and (len(h) <= 3 or n % 2 == 0):
+        env['runmap'] = ZEROMAPS[n % len(ZEROMAPS)]
+    return env
+
+
 def to_jobs(scheds, alpha_of, start=0):
     jobs = []
     for i, h in enumerate(scheds):
@@ -174,7 +202,7 @@ def to_jobs(scheds, alpha_of, start=0):
             {
                 'id': n,
                 'env': environment(n, h, alpha_of(i)),
-                'events': [{k: e[k] for k in FIELDS} for e in h],
+                'events': [{k: (sorted(e[k]) if k == 'tks' else e[k]) for k in FIELDS} for e in h],
                 'sweep': True,
                 'chunk': 7 if n % 3 == 0 else 0,  # framing on the path for every third history
                 'real_digest': n % 400 == 0,  # the external md5sum / sha1sum programs really spawned for a sample
@@ -264,6 +292,7 @@ def run(pid, tier, seed, replay=None):
     # the three-operation histories of the tiny instance that store something, change a version and end in an
     # operation addressed by name (set-up, change, observe: e.g. update, version bump, reset)
     f_obs = pool.submit(gen_schedules, chk, 'gen_obs3', TINY, 3, 'EmitObserved')
+    f_two = pool.submit(gen_schedules, chk, 'gen_two3', TWO, 3, 'EmitTwice')
     if thorough:
         f_sim = pool.submit(sim_schedules, chk, 'sim_dense', DENSE, 1000, 25, seed, 4)
         f_wide = pool.submit(sim_schedules, chk, 'sim_wide', WIDE, 500, 25, seed + 1, 4)
@@ -277,7 +306,7 @@ def run(pid, tier, seed, replay=None):
         mc('mc_small2', SMALL, 2, 4)
         mc('mc_small3', SMALL, 3, MCW)
         mc('mc_full2', FULL, 2, MCW)
-        f_gen.result(), f_obs.result(), f_sim.result(), f_wide.result()
+        f_gen.result(), f_obs.result(), f_two.result(), f_sim.result(), f_wide.result()
         mc('mc_small4', SMALL, 4, core.NPROC, canon=True)
         mc('mc_full3', FULL, 3, core.NPROC, canon=True)
     else:
@@ -300,16 +329,17 @@ def run(pid, tier, seed, replay=None):
         rest = [h for h in scheds if len(h) > 2]
         rnd.shuffle(rest)
         scheds = must + ((short + rest)[:cap] if len(short) < cap else rnd.sample(short, cap))
-    obs3 = f_obs.result()
-    total_transitions += len(obs3)
-    scheds += obs3
+    alphas = [SMALL] * len(scheds)
+    for part, alpha in ((f_obs.result(), TINY), (f_two.result(), TWO)):
+        total_transitions += len(part)
+        scheds += part
+        alphas += [alpha] * len(part)
     sims = f_sim.result()
     wide = f_wide.result() if f_wide else []
     pool.shutdown()
-    nwide = len(wide)
+    alphas += [DENSE if thorough else MID] * len(sims) + [WIDE] * len(wide)
     sims += wide
-    nall = len(scheds) + len(sims)
-    jobs = to_jobs(scheds + sims, lambda i: SMALL if i < len(scheds) else (WIDE if i >= nall - nwide else (DENSE if thorough else MID)))
+    jobs = to_jobs(scheds + sims, lambda i: alphas[i])
     chk.samples = [{'history': [[e[k] for k in FIELDS if e[k] not in ('', 0)] for e in j['events']]} for j in rnd.sample(jobs[: len(scheds)], min(3, len(scheds)))] + [
         {'history': [[e[k] for k in FIELDS if e[k] not in ('', 0)] for e in j['events']]} for j in jobs[len(scheds) : len(scheds) + 1]
     ]
@@ -318,11 +348,15 @@ def run(pid, tier, seed, replay=None):
     missing = [k for k in NEEDED[pid] if kinds[k] == 0]
     if missing:
         raise core.Machinery(f'vacuous run: no line of kind {missing}')
+    big = sum(1 for j in jobs if j['env'].get('big') and len({e['c'] for e in j['events'] if e['ev'] == 'Update'}) >= 2)
+    if big == 0:
+        raise core.Machinery('vacuous run: no history stores two different large values')
     nontrivial = len({json.dumps(j['events'], sort_keys=True) for j in jobs if any(e['ev'] == 'Update' for e in j['events']) and len(j['events']) >= 2})
     chk.counters.update(
         transitions_of_gen_instance=total_transitions,
         transitions_replayed=len(scheds),
         sim_behaviours=len(sims),
+        histories_storing_different_large_values=big,
         kinds=dict(sorted(kinds.items())),
         distinct_nontrivial=nontrivial,
     )
